@@ -30,6 +30,28 @@ def public_names(modname):
     return sorted(k for k in vars(m) if not k.startswith("_"))
 
 
+def bound_names(modname):
+    """every non-underscore name bound in the module's namespace, with what it is bound to (for functions, classes and
+    modules: where the object was defined) - `__all__` says what a module *means* to export, this is what an importer of
+    the module *finds*; both must be the same whatever was imported before"""
+    import types
+
+    m = sys.modules.get(modname)
+    if m is None:
+        return None
+    out = []
+    for k, v in sorted(vars(m).items()):
+        if k.startswith("_"):
+            continue
+        if isinstance(v, types.ModuleType):
+            out.append((k, "module", v.__name__))
+        elif isinstance(v, (type, types.FunctionType, types.BuiltinFunctionType)):
+            out.append((k, type(v).__name__, "%s.%s" % (getattr(v, "__module__", None), getattr(v, "__qualname__", None))))
+        else:
+            out.append((k, type(v).__name__, None))
+    return out
+
+
 def loaded_digests():
     """short digest of the public names of every package module loaded so far (tests excluded)"""
     import hashlib
@@ -38,7 +60,7 @@ def loaded_digests():
     for name in sorted(sys.modules):
         if (name == PKG or name.startswith(PKG + ".")) and ".tests" not in name and sys.modules[name] is not None:
             try:
-                out[name] = hashlib.sha1(json.dumps(public_names(name)).encode()).hexdigest()[:10]
+                out[name] = hashlib.sha1(json.dumps([public_names(name), bound_names(name)]).encode()).hexdigest()[:10]
             except Exception as e:  # a module whose __all__ cannot be listed
                 out[name] = "error:%s" % type(e).__name__
     return out
